@@ -166,7 +166,7 @@ def check(case):
                         repr(dt.tolist()))
     if abs(t.mean() - case['mean']) > 1e-9 * (scale + abs(case['mean'])):
         raise Violation('recession-mean-not-requested', repr(t.mean()))
-    tol = 1e-4 * scale
+    tol = 1e-4 * scale + floor
     # reversal
     t_rev = run(levels[::-1])[::-1]
     if (np.abs((t_rev - t_rev[0]) - (t - t[0])) > tol).any():
@@ -186,7 +186,7 @@ def check(case):
         lhs = et * (t - t[0])
         rhs = -(W - W[0])
         wscale = np.abs(np.diff(W)).sum() + 1e-12
-        if (np.abs(lhs - rhs) > 1e-4 * wscale).any():
+        if (np.abs(lhs - rhs) > 1e-4 * wscale + et * floor).any():
             raise Violation('recession-et-times-time-not-storage',
                             repr((lhs - rhs).tolist()))
         labels.add('curvature-zero')
